@@ -121,6 +121,7 @@ pub open spec fn enc_string(s: Seq<char>) -> Seq<u8> { enc_bytes(encode_utf8(s))
 /// Text component, string-tag form (TAG_String 0x08, u16 length, UTF-8). The compound form is
 /// produced by fastnbt and is not specified here.
 pub open spec fn text_is_plain(s: Seq<char>) -> bool { !(s.len() > 0 && s[0] == '{') }
+#[verifier::opaque]
 pub open spec fn enc_text(s: Seq<char>) -> Seq<u8> { seq![8u8] + (be16(encode_utf8(s).len() as u16) + encode_utf8(s)) }
 
 pub open spec fn str_ok(s: Seq<char>) -> bool { encode_utf8(s).len() <= 0x7fff_ffff }
